@@ -71,6 +71,69 @@ def const_expr(e: ast.AST) -> bool:
     return False
 
 
+MUTATING_METHODS = {"add", "update", "discard", "remove", "pop", "clear", "append", "extend", "insert", "setdefault", "popitem", "sort",
+                    "reverse", "difference_update", "intersection_update", "symmetric_difference_update", "__setitem__", "__delitem__",
+                    "__ior__", "__iand__", "__isub__", "__ixor__", "__iadd__"}
+
+
+def module_constant(src: Path, header_tree: ast.Module, name: str) -> tuple[str, ast.AST]:
+    """(module file, value) of the module-level constant `name` used in header.py (defined there or imported from a sibling module)"""
+    for st in header_tree.body:
+        if isinstance(st, ast.Assign) and len(st.targets) == 1 and isinstance(st.targets[0], ast.Name) and st.targets[0].id == name:
+            return "compile/header.py", st.value
+        if isinstance(st, ast.ImportFrom) and st.level == 1 and st.module and any((a.asname or a.name) == name for a in st.names):
+            orig = [a.name for a in st.names if (a.asname or a.name) == name][0]
+            rel = "compile/" + st.module.replace(".", "/") + ".py"
+            for s2 in parse(src / rel).body:
+                if isinstance(s2, (ast.Assign, ast.AnnAssign)):
+                    tg = s2.targets[0] if isinstance(s2, ast.Assign) and len(s2.targets) == 1 else getattr(s2, "target", None)
+                    if isinstance(tg, ast.Name) and tg.id == orig and s2.value is not None:
+                        return rel, s2.value
+    raise Untranslatable(f"Header.__clear: module constant {name} not found")
+
+
+def constant_never_mutated(src: Path, name: str) -> None:
+    """no statement of the package mutates the module constant through its NAME (a reset `obj.f = NAME.copy()` is a fresh value
+    only as long as NAME itself keeps its literal value); aliases (`x = NAME`) are errors too"""
+    for p in sorted(src.rglob("*.py")):
+        rel = p.relative_to(src).as_posix()
+        for n in ast.walk(parse(p)):
+            if isinstance(n, ast.Call) and isinstance(n.func, ast.Attribute) and isinstance(n.func.value, ast.Name) \
+                    and n.func.value.id == name and n.func.attr in MUTATING_METHODS:
+                raise Untranslatable(f"{rel}:{n.lineno}: {name}.{n.func.attr}(…) mutates a constant that Header.__clear copies")
+            if isinstance(n, (ast.AugAssign, ast.Delete, ast.Assign, ast.AnnAssign)):
+                tgs = n.targets if isinstance(n, (ast.Assign, ast.Delete)) else [n.target]
+                for tg in tgs:
+                    if isinstance(tg, ast.Subscript) and isinstance(tg.value, ast.Name) and tg.value.id == name:
+                        raise Untranslatable(f"{rel}:{n.lineno}: item assignment on the constant {name}")
+                    if isinstance(n, ast.AugAssign) and isinstance(tg, ast.Name) and tg.id == name:
+                        raise Untranslatable(f"{rel}:{n.lineno}: augmented assignment on the constant {name}")
+            if isinstance(n, (ast.Assign, ast.AnnAssign)) and isinstance(n.value, ast.Name) and n.value.id == name:
+                tg = n.targets[0] if isinstance(n, ast.Assign) else n.target
+                if not (isinstance(tg, ast.Name) and tg.id == name):
+                    raise Untranslatable(f"{rel}:{n.lineno}: {ast.unparse(tg)} = {name} aliases a constant that Header.__clear copies")
+
+
+def reset_kind(e: ast.AST, src: Path, header_tree: ast.Module) -> dict:
+    """what kind of value a reset assigns: a mutable container (set / dict / list: an aliased or missing reset leaks CONTENT
+    into later compiles) or an immutable scalar"""
+    txt = ast.unparse(e)
+    if isinstance(e, ast.Call) and isinstance(e.func, ast.Name) and e.func.id in ("set", "dict", "list"):
+        return dict(kind=e.func.id, mutable=True, text=txt)
+    if isinstance(e, (ast.Set, ast.Dict, ast.List)):
+        return dict(kind={ast.Set: "set", ast.Dict: "dict", ast.List: "list"}[type(e)], mutable=True, text=txt)
+    if isinstance(e, ast.Call) and isinstance(e.func, ast.Attribute) and e.func.attr == "copy":
+        name = e.func.value.id
+        where, val = module_constant(src, header_tree, name)
+        # a SHALLOW copy is a fresh value only if the constant is a flat literal of immutable constants
+        if not (isinstance(val, (ast.Set, ast.List, ast.Dict)) and const_expr(val)
+                and all(isinstance(x, ast.Constant) for x in (val.elts if not isinstance(val, ast.Dict) else list(val.keys) + list(val.values)))):
+            raise Untranslatable(f"Header.__clear: {txt}: {name} ({where}) is not a flat literal of constants (a shallow copy would share its parts)")
+        constant_never_mutated(src, name)
+        return dict(kind={ast.Set: "set", ast.Dict: "dict", ast.List: "list"}[type(val)], mutable=True, text=txt, copies=f"{where}:{name}")
+    return dict(kind="scalar", mutable=False, text=txt)
+
+
 def read_header(src: Path) -> dict:
     tree = parse(src / "compile/header.py")
     cls = find_class(tree, "Header")
@@ -82,6 +145,7 @@ def read_header(src: Path) -> dict:
     if [a.arg for a in clear.args.args] != ["obj"]:
         raise Untranslatable("Header.__clear signature")
     cleared = []
+    resets = {}
     for st in body_no_doc(clear):
         if not (isinstance(st, ast.Assign) and len(st.targets) == 1 and isinstance(st.targets[0], ast.Attribute)
                 and isinstance(st.targets[0].value, ast.Name) and st.targets[0].value.id == "obj"):
@@ -89,6 +153,7 @@ def read_header(src: Path) -> dict:
         if not const_expr(st.value):
             raise Untranslatable(f"Header.__clear: {ast.unparse(st)} is not a constant reset")
         cleared.append(st.targets[0].attr)
+        resets[st.targets[0].attr] = reset_kind(st.value, src, tree)
     clr = find_func(cls, "clear")
     if [ast.unparse(s) for s in body_no_doc(clr)] != ["cls.__clear(cls())"]:
         raise Untranslatable("Header.clear is not `cls.__clear(cls())`")
@@ -97,7 +162,7 @@ def read_header(src: Path) -> dict:
         raise Untranslatable("Header.__init__ is not `self.__clear(self)`")
     names = [a for a, _ in annotated]
     fields = names + [c for c in cleared if c not in names]
-    return dict(fields=fields, cleared=cleared, annotations=dict(annotated))
+    return dict(fields=fields, cleared=cleared, annotations=dict(annotated), resets=resets)
 
 
 # ----------------------------------------------------------------------------- DataPack names / read_cert
@@ -609,7 +674,11 @@ def read_set_sites(src: Path) -> list[dict]:
             t = set_elem_type(it, attrs, locs, cls)
             if t is None:
                 return
-            site = dict(file=rel, func=fn.name if fn is not None else "<module>", line=node.lineno, expr=ast.unparse(it), elem=t, use=use)
+            site = dict(file=rel, func=fn.name if fn is not None else "<module>", line=min(node.lineno, it.lineno), end_line=it.end_lineno,
+                        expr=ast.unparse(it), elem=t, use=use,
+                        # may the harness evaluate the expression in the running frame to count the elements?  (no calls: no side effects)
+                        evaluable=not any(isinstance(x, (ast.Call, ast.Await, ast.Yield, ast.YieldFrom, ast.NamedExpr, ast.Lambda,
+                                                         ast.ListComp, ast.SetComp, ast.DictComp, ast.GeneratorExp)) for x in ast.walk(it)))
             if isinstance(node, ast.For):
                 why = loop_cannot_reach_output(node)
                 if why:
@@ -691,7 +760,8 @@ def translate(repo: Path) -> dict:
 
     fields = [("HF", f) for f in hdr["fields"]] + [("DF", a) for a in sorted(assigned)] + ["PyEnv", "PyPending"]
     return dict(header=hdr, cert=cert, pyenv=pyenv, fields=fields, header_only=header_only, header_only_why=why,
-                entries=dict(CLI=cli, TEST=test, PYJMC=pyjmc), set_sites=read_set_sites(src))
+                entries=dict(CLI=cli, TEST=test, PYJMC=pyjmc), set_sites=read_set_sites(src), set_attrs=set_attrs(src),
+                container_fields=[f for f in hdr["cleared"] if hdr["resets"][f]["mutable"]])
 
 
 # ----------------------------------------------------------------------------- Coq output
